@@ -212,6 +212,17 @@ func cmdCheck(args []string) int {
 		}
 		obls = append(obls, e.extraObligations(prop, cfg)...)
 	}
+	// clauses tagged with properties are checked under those properties only (they are assumed under the others)
+	{
+		kept := obls[:0]
+		for _, o := range obls {
+			if len(o.OnlyProps) > 0 && !hasProp(o.OnlyProps, prop) {
+				continue
+			}
+			kept = append(kept, o)
+		}
+		obls = kept
+	}
 	// give obligations property-qualified names
 	for _, o := range obls {
 		if !strings.HasPrefix(o.Name, prop+"/") {
